@@ -43,6 +43,30 @@ MUTANTS = [
      "edits": [{"file": DHELP, "old": "    let bytes = len * core::mem::size_of::<T>();\n    backend.align::<T>()?;", "new": "    let bytes = len * core::mem::size_of::<T>();\n    if len != 0 {\n        backend.align::<T>()?;\n    }"}]},
     {"name": "b60_deserialize_eps_skips_check_header", "kind": "breaking", "expect": ["C10"],
      "edits": [{"file": DES, "old": "        let mut backend = SliceWithPos::new(backend);\n        check_header::<Self>(&mut backend)?;", "new": "        let mut backend = SliceWithPos::new(backend);\n        if false { check_header::<Self>(&mut backend)?; }"}]},
+    {"name": "b03_bound_tags_swapped_all_sides", "kind": "breaking", "expect": ["C06"],
+     "edits": [{"file": STD, "old": 'backend.write("Tag", &1_u8)?;\n                backend.write("Included", val)', "new": 'backend.write("Tag", &2_u8)?;\n                backend.write("Included", val)'},
+               {"file": STD, "old": 'backend.write("Tag", &2_u8)?;\n                backend.write("Excluded", val)', "new": 'backend.write("Tag", &1_u8)?;\n                backend.write("Excluded", val)'},
+               {"file": STD, "old": "            1 => Ok(core::ops::Bound::Included(T::_deserialize_full_inner(", "new": "            2 => Ok(core::ops::Bound::Included(T::_deserialize_full_inner("},
+               {"file": STD, "old": "            2 => Ok(core::ops::Bound::Excluded(T::_deserialize_full_inner(", "new": "            1 => Ok(core::ops::Bound::Excluded(T::_deserialize_full_inner("},
+               {"file": STD, "old": "            1 => Ok(core::ops::Bound::Included(T::_deserialize_eps_inner(", "new": "            2 => Ok(core::ops::Bound::Included(T::_deserialize_eps_inner("},
+               {"file": STD, "old": "            2 => Ok(core::ops::Bound::Excluded(T::_deserialize_eps_inner(", "new": "            1 => Ok(core::ops::Bound::Excluded(T::_deserialize_eps_inner("}]},
+    {"name": "b08_derive_drop_field_names_hash", "kind": "breaking", "expect": ["C04"],
+     "edits": [{"file": DERIVE, "old": "                            #name_literal.hash(hasher);\n                            #(\n                                #fields_names.hash(hasher);\n                            )*\n                            // Recurse on all fields.\n                            #(\n                                <#fields_types as epserde::traits::TypeHash>::type_hash(hasher);\n                            )*\n                        }\n                    }\n                    #[automatically_derived]\n                    impl<#impl_generics> epserde::traits::AlignHash for #name<#concat_generics> #where_clause_align_hash {", "new": "                            #name_literal.hash(hasher);\n                            // Recurse on all fields.\n                            #(\n                                <#fields_types as epserde::traits::TypeHash>::type_hash(hasher);\n                            )*\n                        }\n                    }\n                    #[automatically_derived]\n                    impl<#impl_generics> epserde::traits::AlignHash for #name<#concat_generics> #where_clause_align_hash {"}]},
+    {"name": "b09_derive_drop_const_values_hash_deep", "kind": "breaking", "expect": ["C04"],
+     "edits": [{"file": DERIVE, "old": "                            \"DeepCopy\".hash(hasher);\n                            // Hash the values of generic constants\n                            #(\n                                #const_names.hash(hasher);\n                            )*", "new": "                            \"DeepCopy\".hash(hasher);"}]},
+    {"name": "b11_derive_drop_repr_hash", "kind": "breaking", "expect": ["C04"],
+     "edits": [{"file": DERIVE, "old": "                            // Hash in representation data.\n                            #(\n                                #repr.hash(hasher);\n                            )*\n                            // Recurse on all fields.\n                            #(\n                                <#fields_types as epserde::traits::AlignHash>::align_hash(", "new": "                            // Recurse on all fields.\n                            #(\n                                <#fields_types as epserde::traits::AlignHash>::align_hash("}]},
+    {"name": "b12_derive_drop_size_from_alignhash_enum", "kind": "breaking", "expect": ["C04"],
+     "edits": [{"file": DERIVE, "old": "                            core::mem::size_of::<Self>().hash(hasher);\n                            // Hash in representation data.\n                            #(\n                                #repr.hash(hasher);\n                            )*\n                            // Recurse on all fields.\n                            let old_offset_of", "new": "                            // Hash in representation data.\n                            #(\n                                #repr.hash(hasher);\n                            )*\n                            // Recurse on all fields.\n                            let old_offset_of"}]},
+    {"name": "b13_slice_hashes_own_name", "kind": "breaking", "expect": ["C04"],
+     "edits": [{"file": "epserde/src/impls/slice.rs", "old": "impl<T: TypeHash> TypeHash for &[T] {\n    fn type_hash(hasher: &mut impl core::hash::Hasher) {\n        Vec::<T>::type_hash(hasher);", "new": "impl<T: TypeHash> TypeHash for &[T] {\n    fn type_hash(hasher: &mut impl core::hash::Hasher) {\n        use core::hash::Hash;\n        \"&[]\".hash(hasher);\n        T::type_hash(hasher);"}]},
+    {"name": "b18_swap_hashes_both_sides", "kind": "breaking", "expect": ["C06"],
+     "edits": [{"file": SER, "old": '    backend.write("TYPE_HASH", &type_hasher.finish())?;\n    backend.write("REPR_HASH", &align_hasher.finish())?;', "new": '    backend.write("REPR_HASH", &align_hasher.finish())?;\n    backend.write("TYPE_HASH", &type_hasher.finish())?;'},
+               {"file": DES, "old": "    let ser_type_hash = u64::_deserialize_full_inner(backend)?;\n    let ser_align_hash = u64::_deserialize_full_inner(backend)?;", "new": "    let ser_align_hash = u64::_deserialize_full_inner(backend)?;\n    let ser_type_hash = u64::_deserialize_full_inner(backend)?;"}]},
+    {"name": "b24_vec_typehash_drops_T_for_arrays", "kind": "breaking", "expect": ["C04"],
+     "edits": [{"file": "epserde/src/impls/array.rs", "old": '        "[]".hash(hasher);\n        hasher.write_usize(N);', "new": '        "[]".hash(hasher);'}]},
+    {"name": "b35_padding_byte_one", "kind": "breaking", "expect": ["C07"],
+     "edits": [{"file": "epserde/src/ser/write_with_names.rs", "old": "        for _ in 0..padding {\n            self.write_all(&[0])?;\n        }\n        Ok(())\n    }\n\n    /// Write a value with an associated name.", "new": "        for _ in 0..padding {\n            self.write_all(&[1])?;\n        }\n        Ok(())\n    }\n\n    /// Write a value with an associated name."}]},
     # ---------------------------------------------------------------- preserving
     {"name": "p02_question_mark_to_match", "kind": "preserving",
      "edits": [{"file": PRIM, "old": "        let tag = u8::_deserialize_full_inner(backend)?;\n        match tag {\n            0 => Ok(None),\n            1 => Ok(Some(T::_deserialize_full_inner(backend)?)),", "new": "        let tag = match u8::_deserialize_full_inner(backend) { Ok(t) => t, Err(e) => return Err(e) };\n        match tag {\n            0 => Ok(None),\n            1 => Ok(Some(T::_deserialize_full_inner(backend)?)),"}]},
